@@ -26,13 +26,17 @@ type blockRec struct {
 
 // Sim drives all implementations through the same history.
 type Sim struct {
-	g       *Gen
-	prover  *u.Pollard // the reference prover (also insts[0])
-	insts   []*Inst
-	stump   u.Stump
-	slots   []u.Hash // every leaf ever added, by insertion slot
-	alive   []bool
-	hist    []blockRec
+	// undoHashes/undoProof, when set before applyBlockData, are what Undo is later called
+	// with for that block (the canonical encoding) instead of the encoding given to Modify
+	undoHashes  []u.Hash
+	undoProof   *u.Proof
+	g           *Gen
+	prover      *u.Pollard // the reference prover (also insts[0])
+	insts       []*Inst
+	stump       u.Stump
+	slots       []u.Hash // every leaf ever added, by insertion slot
+	alive       []bool
+	hist        []blockRec
 	allRemember bool
 }
 
@@ -224,6 +228,11 @@ func (s *Sim) applyBlockData(delIdx []int, delHashes []u.Hash, proof u.Proof, ad
 	for _, a := range adds {
 		s.slots = append(s.slots, a.Hash)
 		s.alive = append(s.alive, true)
+	}
+	if s.undoProof != nil {
+		rec.delHashes = copyHashes(s.undoHashes)
+		rec.proof = u.Proof{Targets: copyU64(s.undoProof.Targets), Proof: copyHashes(s.undoProof.Proof)}
+		s.undoProof, s.undoHashes = nil, nil
 	}
 	s.hist = append(s.hist, rec)
 }
